@@ -53,10 +53,10 @@ class RecBackend:
     def __init__(self, states):
         self.states = states
         self.submitted = []
-        self.queried = set()
+        self.queried = []
 
     def status(self, target):
-        self.queried.add(target.name)
+        self.queried.append(target.name)
         return self.states[target.name]
 
     def submit(self, target, dependencies):
@@ -89,23 +89,48 @@ def patterns_for(sel, names):
     raise KeyError(sel)
 
 
-def build(n, deps, names, stale):
+G = {}
+
+
+def build_graph(n, deps, names):
+    """Concrete part of the world (does not depend on symbolic values): built once per shard."""
     targets = {}
-    cache = {"/vfs/p/src": 5}
     for i in range(n):
         ins = ["o%d" % d for d in deps[i]] or ["src"]
         targets[names[i]] = Target(name=names[i], inputs=ins, outputs=["o%d" % i], options={}, working_dir="/vfs/p", spec="run %d" % i)
-        cache["/vfs/p/o%d" % i] = None if stale[i] else 5
-    # definition order = name order reversed w.r.t. topological order for the "rev" labelling as well
-    fs = CachedFilesystem(cache=cache)
-    graph = Graph.from_targets(targets, fs)
-    return targets, graph, fs
+    graph = Graph.from_targets(targets, CachedFilesystem(cache={"/vfs/p/src": 5}))
+    return targets, graph
+
+
+class LazyCache(dict):
+    """The pre-filled cache of CachedFilesystem, deciding 'output i is missing' (= stale bit i) only
+    when gwf actually looks the file up, so that unneeded stale bits do not fork paths."""
+
+    def __init__(self, stale):
+        dict.__init__(self)
+        self.stale = stale
+
+    def __contains__(self, path):
+        return True
+
+    def __getitem__(self, path):
+        if path == "/vfs/p/src":
+            return 5
+        i = int(path[len("/vfs/p/o"):])
+        return None if self.stale[i] else 5
+
+
+def build(n, deps, names, stale):
+    return G["targets"], G["graph"], CachedFilesystem(cache=LazyCache(stale))
 
 
 def _q2a(s0, s1, s2, s3, b0, b1, b2, b3):
     n, deps, lab, sel = q.SHARD["n"], q.SHARD["deps"], q.SHARD["lab"], q.SHARD["sel"]
     stale = [s0, s1, s2, s3][:n]
     bsel = [b0, b1, b2, b3][:n]
+    fix = q.SHARD.get("fix_b0")
+    if fix is not None and b0 != fix:
+        return q.SKIP
     for b in bsel:
         if not q.in_range(b, 6):
             return q.SKIP
@@ -113,15 +138,18 @@ def _q2a(s0, s1, s2, s3, b0, b1, b2, b3):
     targets, graph, fs = build(n, deps, names, stale)
     states = {names[i]: q.pick(BS, bsel[i]) for i in range(n)}
     pats = patterns_for(sel, names)
-    if pats is None:
-        requested_t = graph.endpoints()
-        requested = P.endpoints(n, deps)
-    else:
-        requested_t = filter_names(graph, pats)
-        requested = [i for i in range(n) if any(fnmatch.fnmatchcase(names[i], p) for p in pats)]
-    if sorted(t.name for t in requested_t) != sorted(names[i] for i in requested):
+    with q.notrace():     # concrete values only: real filter code runs untraced (exact)
+        if pats is None:
+            requested_t = graph.endpoints()
+            requested = P.endpoints(n, deps)
+        else:
+            requested_t = filter_names(graph, pats)
+            requested = [i for i in range(n) if any(fnmatch.fnmatchcase(names[i], p) for p in pats)]
+        sel_ok = sorted(t.name for t in requested_t) == sorted(names[i] for i in requested)
+        cone0 = sorted(P.closure(deps, requested))
+    if not sel_ok:
         return "selection %s resolved to %s, expected %s" % (pats, sorted(t.name for t in requested_t), sorted(names[i] for i in requested))
-    cone, st, pre, sub = P.plan(n, deps, stale, bsel, requested)
+    cone, st, pre, sub = P.plan(n, deps, stale, bsel, requested, cone0)
     be = RecBackend(states)
     submit_workflow(requested_t, graph, fs, NoopSpecHashes(), be)
     msg = P.check_trace(names, deps, cone, st, pre, sub, be.submitted, be.queried)
@@ -149,6 +177,7 @@ def q2a(s0: bool, s1: bool, s2: bool, s3: bool, b0: int, b1: int, b2: int, b3: i
 def setup_q2a(shard):
     if not seam_ok():
         raise SystemExit("seam lost: schedule() uses fs/spec_hashes other than via should_run")
+    G["targets"], G["graph"] = build_graph(shard["n"], shard["deps"], names_for(shard["n"], shard["lab"]))
 
 
 # ---------------------------------------------------------------- Q2b TrackingBackend: dependency targets -> their tracked ids
@@ -171,51 +200,53 @@ class RecOps:
         pass
 
 
-def _q2b(ida, idb, idc, first, newbase):
-    """A, B tracked from an earlier invocation (symbolic ids), C maybe; submit D depending on a
-    symbolic subset; then resubmit A: the ids handed to ops are exactly the tracked ids of the
-    named dependency targets, and the new id replaces the old one."""
-    if not (ida >= 0 and idb >= 0 and idc >= 0 and newbase >= 0):
-        return q.SKIP
-    if ida == idb or ida == idc or idb == idc:
-        return q.SKIP
-    if not q.in_range(first, 8):
+TB_TARGETS = {nm: Target(name=nm, inputs=[], outputs=[], options={}, working_dir="/vfs/p") for nm in ("A", "B", "C", "D", "E")}
+
+
+def _q2b(first, second, resub):
+    """A, B, C tracked from an earlier invocation; submit D depending on a symbolic subset of
+    them; maybe resubmit A; submit E depending on a symbolic subset of {A, B, D}: the ids handed
+    to ops are exactly the currently tracked ids of the named dependency targets, in order, and
+    a new id replaces the old one."""
+    if not (q.in_range(first, 8) and q.in_range(second, 8)):
         return q.SKIP
     tb = TrackingBackend.__new__(TrackingBackend)
-    ops = RecOps(newbase)
-    tracked = {"A": str(ida), "B": str(idb), "C": str(idc)}
-    tb.__attrs_init__(working_dir="/vfs/none", name="rec", ops=ops) if False else None
-    # construct without touching the file system: set the attrs fields directly
+    ops = RecOps(9000)
+    tracked = {"A": "311", "B": "312", "C": "313"}
     object.__setattr__(tb, "working_dir", "/vfs/none")
     object.__setattr__(tb, "name", "rec")
     object.__setattr__(tb, "ops", ops)
     object.__setattr__(tb, "_tracked_jobs", dict(tracked))
     object.__setattr__(tb, "_job_states", {})
-    T = {nm: Target(name=nm, inputs=[], outputs=[], options={}, working_dir="/vfs/p") for nm in ("A", "B", "C", "D")}
+    T = TB_TARGETS
+    model = dict(tracked)
     subset = [nm for k, nm in enumerate(("A", "B", "C")) if (first >> k) & 1]
     tb.submit(T["D"], [T[nm] for nm in subset])
-    if ops.calls[-1] != ("D", [tracked[nm] for nm in subset]):
-        return "D submitted with ids %s, expected %s" % (ops.calls[-1][1], [tracked[nm] for nm in subset])
-    idd = tb._tracked_jobs.get("D")
-    if idd != str(newbase + 1):
-        return "D tracked as %r, the scheduler returned %r" % (idd, str(newbase + 1))
+    if ops.calls[-1] != ("D", [model[nm] for nm in subset]):
+        return "D submitted with ids %s, expected %s" % (ops.calls[-1][1], [model[nm] for nm in subset])
+    model["D"] = "9001"
+    if tb._tracked_jobs.get("D") != "9001":
+        return "D tracked as %r, the scheduler returned '9001'" % (tb._tracked_jobs.get("D"),)
     if tb.status(T["D"]) != BackendStatus.SUBMITTED:
         return "freshly submitted D reported %s" % tb.status(T["D"])
-    # resubmission of A replaces its id; a later dependent gets the new one
-    tb.submit(T["A"], [])
-    tb.submit(T["B"], [T["A"], T["D"]])
-    if ops.calls[-1] != ("B", [str(newbase + 2), str(newbase + 1)]):
-        return "B submitted with ids %s, expected the new ids of A and D" % (ops.calls[-1][1],)
-    if tb._tracked_jobs["A"] != str(newbase + 2) or tb._tracked_jobs["C"] != str(idc):
-        return "tracked map wrong after resubmission: %s" % (tb._tracked_jobs,)
+    if resub:
+        tb.submit(T["A"], [])
+        model["A"] = "9002"
+    subset2 = [nm for k, nm in enumerate(("A", "B", "D")) if (second >> k) & 1]
+    tb.submit(T["E"], [T[nm] for nm in subset2])
+    if ops.calls[-1] != ("E", [model[nm] for nm in subset2]):
+        return "E submitted with ids %s, expected %s (current ids of %s)" % (ops.calls[-1][1], [model[nm] for nm in subset2], subset2)
+    model["E"] = ops.calls and str(ops.next_id)
+    if dict(tb._tracked_jobs) != model:
+        return "tracked map %s, expected %s" % (tb._tracked_jobs, model)
     return ""
 
 
-def q2b(ida: int, idb: int, idc: int, first: int, newbase: int) -> str:
+def q2b(first: int, second: int, resub: bool) -> str:
     """
     post: _ == ""
     """
-    return q.run(_q2b, (ida, idb, idc, first, newbase))
+    return q.run(_q2b, (first, second, resub))
 
 
 def _shards(n, labs, sels, shapes=None):
@@ -227,18 +258,19 @@ def _shards(n, labs, sels, shapes=None):
     return out
 
 
+_N3_KEY = [[[], [0], [1]], [[], [0], [0]], [[], [], [0, 1]], [[], [], []]]
 _DIAMOND = [[], [0], [0], [1, 2]]
 _N4_KEY = [_DIAMOND, [[], [0], [1], [2]], [[], [], [0, 1], [2]], [[], [0], [0], []], [[], [], [], [0, 1, 2]], [[], [0], [], [1, 2]]]
 
 QUERIES = [
     {"name": "Q2a", "fn": q2a, "setup": setup_q2a,
-     "shards": {"quick": _shards(3, ["topo", "rev"], ["default", "exact-last"]) + _shards(3, ["topo"], ["star", "class", "nomatch", "two"], shapes=[[[], [0], [1]], [[], [0], [0]], [[], [], [0, 1]], [[], [], []]])
-                         + _shards(4, ["topo"], ["default"], shapes=[_DIAMOND]),
-                "thorough": _shards(3, ["topo", "rev"], SELECTIONS) + _shards(4, ["topo", "rev"], ["default"]) + _shards(4, ["topo"], ["exact-last", "class", "two"], shapes=_N4_KEY)},
+     "shards": {"quick": _shards(3, ["topo", "rev"], ["default"]) + _shards(3, ["topo"], ["exact-last", "star", "class", "nomatch", "two"], shapes=_N3_KEY)
+                         + [dict(sh, fix_b0=k) for sh in _shards(4, ["topo"], ["default"], shapes=[_DIAMOND]) for k in range(6)],
+                "thorough": _shards(3, ["topo", "rev"], SELECTIONS) + [dict(sh, fix_b0=k) for sh in _shards(4, ["topo", "rev"], ["default"]) + _shards(4, ["topo"], ["exact-last", "class", "two"], shapes=_N4_KEY) for k in range(6)]},
      "timeout": {"quick": 300, "thorough": 1800},
-     "bound": "quick: all 8 DAG shapes on 3 targets x 2 name labellings x {default endpoints, one exact name} + 4 shapes x 4 pattern selections + the 4-diamond; "
+     "bound": "quick: all 8 DAG shapes on 3 targets x 2 name labellings (default endpoints) + 4 shapes (chain, fork, join, independent) x 5 pattern selections + the 4-diamond; "
               "thorough: all shapes on 3 x 2 labellings x 6 selections, all 64 shapes on 4 x 2 labellings (default selection), 6 key shapes on 4 x 3 selections; "
               "stale bit (bool) and backend state (6 values) per target symbolic"},
     {"name": "Q2b", "fn": q2b, "shards": [{}], "timeout": 300,
-     "bound": "3 tracked targets with symbolic distinct non-negative ids, dependency subset of them (8), one submit, one resubmission, one dependent submit"},
+     "bound": "3 tracked targets, symbolic dependency subset (8) for a first submission, optional resubmission of a tracked target, symbolic dependency subset (8) for a second submission"},
 ]
